@@ -75,7 +75,68 @@ func c09Targets() []c09Target {
 	}
 	ts = append(ts, c09Target{60, "auto:no-such-style", func(t tabular.Table) (string, error) { return auto.Render(t, "no-such-style") },
 		func(t tabular.Table) RenderW { return auto.Wrap(t, "no-such-style") }})
+	// styles an application writes by hand and sets WITHOUT Populate: any
+	// subset of the glyph fields may be empty (SetDecoration takes any value)
+	code = 70
+	for _, hd := range c09HandDecorations() {
+		hd := hd
+		ts = append(ts, c09Target{code, "texttable:hand-written:" + hd.name, func(t tabular.Table) (string, error) {
+			tt := texttable.Wrap(t)
+			tt.SetDecoration(hd.d)
+			return tt.Render()
+		}, func(t tabular.Table) RenderW {
+			tt := texttable.Wrap(t)
+			tt.SetDecoration(hd.d)
+			return tt
+		}})
+		code++
+	}
 	return ts
+}
+
+type c09Hand struct {
+	name string
+	d    decoration.Decoration
+}
+
+// c09HandDecorations: hand-written decorations that were never Populate()d -
+// single fields, the vertical pieces in every combination, the horizontal
+// pieces alone, everything but one field.
+func c09HandDecorations() []c09Hand {
+	var out []c09Hand
+	for m := 1; m < 8; m++ {
+		var d decoration.Decoration
+		name := "v"
+		if m&1 != 0 {
+			d.VHeader = "#"
+			name += "H"
+		}
+		if m&2 != 0 {
+			d.VBodyBorder = "!"
+			name += "B"
+		}
+		if m&4 != 0 {
+			d.VBodyInner = "|"
+			name += "I"
+		}
+		out = append(out, c09Hand{name, d})
+	}
+	out = append(out,
+		c09Hand{"horizontal-only", decoration.Decoration{Horizontal: "-", HOuter: "=", HRule: "-"}},
+		c09Hand{"corners-only", decoration.Decoration{TopLeft: "/", TopRight: "\\", BottomLeft: "\\", BottomRight: "/"}},
+		c09Hand{"crosses-only", decoration.Decoration{CrossPiece: "+", HTopDown: "+", HBCross: "+", BTopDown: "+", BBottomUp: "+"}},
+		c09Hand{"placeholders-only", decoration.Decoration{Horizontal: "-", Vertical: "|", CrossPiece: "+"}},
+	)
+	full := decoration.Decoration{Horizontal: "-", Vertical: "|", CrossPiece: "+"}
+	full.Populate()
+	noInnerRule := full
+	noInnerRule.VBodyBorder = ""
+	out = append(out, c09Hand{"populated-then-border-cleared", noInnerRule})
+	noRight := full
+	noRight.VHeader = ""
+	noRight.HOuter = ""
+	out = append(out, c09Hand{"populated-then-header-bar-and-outer-cleared", noRight})
+	return out
 }
 
 // C09Spec: a table and how it is rendered: a fresh table for every target, or
